@@ -28,15 +28,16 @@
         C13_reverse_inverts_forward; errors: C13_wellformed_total (a well-formed recipe never raises; ill-formed
         atom maps raise IndexError in the model and are compared by correspondence).
     (g) model = code:   C13_translated_coordinates_is_model, C13_translated_gradient_is_model,
-        C13_translated_hessian_is_model, C13_translated_atoms_vector_datom_is_model (generated from the source);
-        the atom loop of align_vector_gradient around its per-atom block, np_blockwise and align_system /
-        align_mini_system: only correspondence/oracle.
+        C13_translated_hessian_is_model, C13_translated_atoms_vector_datom_is_model,
+        C13_translated_vector_gradient_loop_is_model (the whole method incl. its atom loop and the order of its
+        exceptions; all generated from the source); np_blockwise and align_system / align_mini_system: only
+        correspondence/oracle.
     No clause is missing; none of the theorems is _partial.  _refuted: C13_vector_rotates_with_frame_under_mirror_refuted
     (the "without mirror" restriction of clause (d) cannot be dropped; not a defect: the property excludes it). *)
 From Coq Require Import List Arith Lia Reals ZArith.
 From Coquelicot Require Import Coquelicot.
 Require Import QV.Common.Outcome QV.Common.AlignAlg QV.Common.AlignAlgFacts QV.Common.AlignAlgR QV.Model.Mill QV.Proofs.Mill QV.Proofs.MillCalc
-               QV.Model.MillOps QV.Gen.MillGen QV.Proofs.MillGen QV.Model.Blockwise QV.Proofs.Blockwise.
+               QV.Model.MillOps QV.Model.MillLoop QV.Gen.MillGen QV.Proofs.MillGen QV.Model.Blockwise QV.Proofs.Blockwise.
 Import ListNotations.
 
 (** align_coordinates (forward) is the affine map  x |-> L x + t. *)
@@ -248,6 +249,17 @@ Proof.
   - apply gen_datom_is_model.
 Qed.
 
+(** The WHOLE method align_vector_gradient as translated from the source - mu_x, mu_y, mu_z = mu_derivatives;
+    nat = mu_x.shape[0] // 3; al_mu = zeros((3, 3*nat)); for at in range(nat): read self.atommap[at] (IndexError past
+    the end), the three slices (ValueError when short), rotate, store the three rows into al_mu[c, 3*at:3*at+3];
+    return al_mu - is the model, including which exception is raised first, whenever the three input rows have one
+    length that is a multiple of 3 (other inputs are outside the modelled domain: the model answers Err PyTypeError). *)
+Theorem C13_translated_vector_gradient_loop_is_model :
+  forall (K : Type) (KO : Ops K) (m : mill K) (mx my mz : list K),
+  length my = length mx -> length mz = length mx -> length mx = (3 * (length mx / 3))%nat ->
+  gen_align_vector_gradient m (mx, my, mz) = align_vector_gradient m (mx, my, mz).
+Proof. intros K KO m mx my mz. exact (gen_align_vector_gradient_is_model m (mx, my, mz)). Qed.
+
 (** ---- non-vacuity ---- *)
 #[local] Instance ZOps : Ops Z := {| k0 := 0%Z; k1 := 1%Z; kadd := Z.add; kmul := Z.mul; ksub := Z.sub; kopp := Z.opp |}.
 #[local] Instance ZLaws : RingLaws Z := InitialRing.Zth.
@@ -273,6 +285,18 @@ Qed.
 (* quarter turn about z, shift (1,2,3), cyclic atom map, mirror on: the recipe shape of finding C13-hessian-mirror *)
 Definition ex_mill : mill Z :=
   {| shift := (1, 2, 3)%Z; rot := ((0, -1, 0), (1, 0, 0), (0, 0, 1))%Z; amap := [2; 0; 1]%nat; mirror := true |}.
+(** the hypotheses of C13_translated_vector_gradient_loop_is_model are satisfiable and the loop does something:
+    two atoms swapped by the recipe, a quarter turn about z; an atom map entry past the last atom raises ValueError
+    (empty slice), a map shorter than the number of atoms raises IndexError - in the translated loop as in the model *)
+Example C13_ex_vector_gradient_loop :
+  let q := ((0, -1, 0), (1, 0, 0), (0, 0, 1))%Z in
+  let mu := ([1; 2; 3; 4; 5; 6], [7; 8; 9; 10; 11; 12], [13; 14; 15; 16; 17; 18])%Z in
+  gen_align_vector_gradient (Build_mill Z (0, 0, 0)%Z q [1; 0]%nat false) mu
+    = Ok ([11; -10; 12; 8; -7; 9], [-5; 4; -6; -2; 1; -3], [17; -16; 18; 14; -13; 15])%Z /\
+  gen_align_vector_gradient (Build_mill Z (0, 0, 0)%Z q [1; 2]%nat false) mu = Err PyValueError /\
+  gen_align_vector_gradient (Build_mill Z (0, 0, 0)%Z q [1]%nat false) mu = Err PyIndexError.
+Proof. vm_compute. repeat split. Qed.
+
 Example C13_ex_wellformed :
   mmul (mtrans (rot ex_mill)) (rot ex_mill) = mid /\ mmul (rot ex_mill) (mtrans (rot ex_mill)) = mid /\ is_perm 3 (amap ex_mill).
 Proof.
@@ -410,4 +434,5 @@ Print Assumptions C13_translated_coordinates_is_model.
 Print Assumptions C13_translated_gradient_is_model.
 Print Assumptions C13_translated_hessian_is_model.
 Print Assumptions C13_translated_atoms_vector_datom_is_model.
+Print Assumptions C13_translated_vector_gradient_loop_is_model.
 Print Assumptions C13_vector_rotates_with_frame_under_mirror_refuted.
